@@ -58,6 +58,11 @@ func (x *Exec) Drive(nops int, note string) []GenOp {
 			if x.Cfg.Mem && x.rng.Intn(40) == 0 {
 				x.memEvent()
 			}
+			if x.Cfg.Misuse != 0 && len(x.queries) == 0 && x.rng.Intn(30) == 0 {
+				// rejected calls in the middle of a history: whatever they leave behind in hidden state shows in the
+				// valid operations that follow (C10: "... exactly as before the call")
+				x.misuseBattery(i)
+			}
 		}); msg != "" {
 			x.emit(LogBroken{K: "broken", Where: "batteries", Msg: msg})
 			return done
